@@ -23,14 +23,14 @@ const (
 )
 
 type j11 struct {
-	Name   []byte     `json:"name"`
-	NameQ  string     `json:"name_q"`
+	Name   []byte      `json:"name"`
+	NameQ  string      `json:"name_q"`
 	Tags   [][2][]byte `json:"tags"` // as given to NewTags (a map: unique keys)
-	TagsQ  []string   `json:"tags_q"`
-	Fields []jfield   `json:"fields"` // a map: unique keys
-	Time   *int64     `json:"time"`   // nil = zero time.Time
-	Prec   string     `json:"precision"`
-	Dflt   int64      `json:"default_time"`
+	TagsQ  []string    `json:"tags_q"`
+	Fields []jfield    `json:"fields"` // a map: unique keys
+	Time   *int64      `json:"time"`   // nil = zero time.Time
+	Prec   string      `json:"precision"`
+	Dflt   int64       `json:"default_time"`
 
 	NPErr    string   `json:"impl_newpoint_err,omitempty"`
 	Printed  []byte   `json:"impl_printed"`
@@ -407,11 +407,11 @@ func corpus11() []j11 {
 	}
 	return []j11{
 		mk("cpu", [][2]string{{"host", "a b"}, {"region", "x,y=z"}}, []jfield{i1, {Key: []byte("g h"), Type: "string", S: []byte("q\"\\\n,= ")}, {Key: []byte("u"), Type: "uint", U: math.MaxUint64}, {Key: []byte("x"), Type: "float", F: math.Float64bits(-0.1)}, {Key: []byte("b"), Type: "bool", B: true}}, tp(1700000000123456789), "ns"),
-		mk("m", [][2]string{{"t", `a\`}}, []jfield{i1}, tp(5), "ns"),                   // F11: trailing backslash in a tag value
-		mk(`m\`, nil, []jfield{i1}, tp(5), "ns"),                                        // ... in the measurement
-		mk("m", nil, []jfield{{Key: []byte(`f\`), Type: "int", I: 1}}, tp(5), "ns"),     // ... in a field key
-		mk(`m\,x`, nil, []jfield{i1}, tp(5), "ns"),                                      // backslash before a delimiter
-		mk("m", [][2]string{{"a ", "x"}, {`a"`, "y"}}, []jfield{i1}, tp(5), "ns"),       // order flips under escaping
+		mk("m", [][2]string{{"t", `a\`}}, []jfield{i1}, tp(5), "ns"),                // F11: trailing backslash in a tag value
+		mk(`m\`, nil, []jfield{i1}, tp(5), "ns"),                                    // ... in the measurement
+		mk("m", nil, []jfield{{Key: []byte(`f\`), Type: "int", I: 1}}, tp(5), "ns"), // ... in a field key
+		mk(`m\,x`, nil, []jfield{i1}, tp(5), "ns"),                                  // backslash before a delimiter
+		mk("m", [][2]string{{"a ", "x"}, {`a"`, "y"}}, []jfield{i1}, tp(5), "ns"),   // order flips under escaping
 		mk("#m", nil, []jfield{i1}, tp(5), "ns"), mk("\tm", nil, []jfield{i1}, tp(5), "ns"), mk("", nil, []jfield{i1}, tp(5), "ns"),
 		mk("m", [][2]string{{"", "x"}}, []jfield{i1}, tp(5), "ns"), mk("m", [][2]string{{"k", ""}}, []jfield{i1}, tp(5), "ns"),
 		mk("m", [][2]string{{"time", "x"}}, []jfield{i1}, tp(5), "ns"), mk("m", [][2]string{{"k", "a\nb"}}, []jfield{i1}, tp(5), "ns"),
